@@ -911,7 +911,9 @@ def calculateSunVizFraction({tgt}, {sun}):
         return 1.0 - A / (PI * a ** 2)
     return 1.0
 """
-        res = refdefs.compare(fn.node, ast.parse(ref_src).body[0])
+        # the case conditions are part of the cited definition (sunward side, umbra, partial overlap): a case guarded by
+        # other operands than the documented ones is a deviation here, not a respelling
+        res = refdefs.compare(fn.node, ast.parse(ref_src).body[0], strict_guards=True)
         bad = [text for _nm, text, _ln in res["mismatch"]]
         if bad:
             r.violation(fn.qualname, "sun-fraction:" + ";".join(b_[:60] for b_ in bad), "calculateSunVizFraction: " + "; ".join(bad), fn.loc())
